@@ -313,7 +313,7 @@ structure ChkSt where
   abs : List ((Nat × String) × Abs) := []
   pausedTicks : Nat := 0                                -- statistics: (instance, tick) pairs inside a pause
 
-def checkTick (c05 : Bool) (c06 : Bool) (rss : List RsJ) (objs : List ObjI) (k : Nat) (t : TickJ) (it : ITick) (prev : List (List String))
+def checkTick (c05 : Bool) (c06 : Bool) (c07 : Bool) (rss : List RsJ) (objs : List ObjI) (k : Nat) (t : TickJ) (it : ITick) (prev : List (List String))
     (S : ChkSt) : List String × ChkSt × List (List String) := Id.run do
   let mut v : List String := []
   let mut S' : ChkSt := { pausedTicks := S.pausedTicks }
@@ -392,6 +392,16 @@ def checkTick (c05 : Bool) (c06 : Bool) (rss : List RsJ) (objs : List ObjI) (k :
       -- C06 for ruleset-cgroup rulesets, per matching cgroup (scenarios of C06's `percg` pass): an instance that stayed resumes
       -- its own suspended chain at the paused action with the context it was fired with; an instance created after an absence
       -- starts clean (no inherited chain), whatever other instances are doing
+      -- C07 for ruleset-cgroup rulesets (scenarios of C07's `percg` pass): a chain that starts in an instance carries the
+      -- deadline "the firing group's check + the RULESET's prekill_hook_timeout" - the instance is a copy of its ruleset,
+      -- time-out included
+      if c07 && !paused && A.susp.isNone then
+        match r.cfg.rs.groups.find? (groupFires sc), acts.head? with
+        | some g, some (IEv.a _ _ _ _ _ _ _ dl _ _ _) =>
+          match g.dets.getLast?.bind fun di => dets.find? fun e => e.inst == di with
+          | some e => if dl != Int.ofNat (e.now + (sc e.inst).adv + r.cfg.rs.hookTimeout) then v := v ++ ["C07.percg_deadline_is_fire_plus_ruleset_timeout"]
+          | none => pure ()
+        | _, _ => pure ()
       if c06 && T?.isSome then
         if got != expected && (fresh || A.susp.isSome) then
           v := v ++ [if fresh then "C06.percg_clean_after_absence" else "C06.percg_resumes_paused_action"]
@@ -463,7 +473,7 @@ def collectObjs (compile : List IEv) (ticks : List ITick) : List ObjI := Id.run 
 /-! ### entry point -/
 
 def priority : List String :=
-  ["C11.no_error", "trace", "C05.", "C06.", "C11.once_per_match", "C11.prerun_every_tick", "C11.discarded_when_absent",
+  ["C11.no_error", "trace", "C05.", "C06.", "C07.", "C11.once_per_match", "C11.prerun_every_tick", "C11.discarded_when_absent",
    "C11.fresh_after_absence", "C11.state_persists_while_present", "C11.default_target"]
 
 def rank (c : String) : Nat := (priority.findIdx? fun p => c.startsWith p).getD priority.length
@@ -518,7 +528,7 @@ def handle (j : Json) : Json :=
   let objs := collectObjs compile iticks
   let chk (acc : List String × ChkSt × List (List String) × Nat) (ti : TickJ × ITick) :=
     let (v, S, prev, k) := acc
-    let (v', S', cur) := checkTick (jstr sc "prop" == "C05") (jstr sc "prop" == "C06") rss objs k ti.1 ti.2 prev S
+    let (v', S', cur) := checkTick (jstr sc "prop" == "C05") (jstr sc "prop" == "C06") (jstr sc "prop" == "C07") rss objs k ti.1 ti.2 prev S
     (v ++ v', S', cur, k + 1)
   let (viol0, Sfin, _, _) := (ticks.zip iticks).foldl chk ([], {}, [], 0)
   let viol1 := if iticks.length == ticks.length then viol0 else viol0 ++ ["trace.missing_ticks"]
